@@ -15,6 +15,10 @@ def main(tier, seed):
     bins = [("dev", vlib.build_harness("dev")), ("release", vlib.build_harness("release"))]
     progs = scenarios.snippet_scenarios(rng, 1500 if tier == "quick" else 25000)
     profcheck.run_scenarios(rep, "snippets", progs, bins, PROP)
+    snippet_runs = rep.last_runs
+    # modules across runs: a module imported by an early snippet, then failures of every kind, then the import again
+    profcheck.run_scenarios(rep, "modulereruns", [p for p in scenarios.module_rerun_scenarios() if p[0].startswith("modrerun:")], bins, PROP)
+    rep.last_runs = snippet_runs + rep.last_runs
     # the same sequences typed into the shipped REPL (yarel-cli with no argument): one snippet per line on stdin
     import cli
     seqs = [(r, r["prog"]) for r in rep.last_runs if r["done"] and not r["oom"] and not r["trig"]
